@@ -124,7 +124,8 @@ func lineCounter(r io.Reader) (uint64, error) {
 					distance = distanceCarryForward + index + 1
 					distanceCarryForward = 0
 					if index > 0 {
-						prevNotCarageReturn = buf[index-1] != '\r'
+						// index is relative to the searched slice
+						prevNotCarageReturn = buf[startIndex+index-1] != '\r'
 					}
 					if (distance > 1 && prevNotCarageReturn) || (distance > 2 && !prevNotCarageReturn) {
 						count++
